@@ -217,6 +217,55 @@ def _find_rewrite_unchanged(d, old, new, ctx):
     return False
 
 
+def _collapse_check(case, d, old, new, rb, vendor, ctx, labels, det):
+    """the review text shown before a deploy groups devices with the same differences under one heading and prints ONE of their diffs
+    (annet.diff.collapse_diffs): every device of a group must read back its own diff from that text.  Three devices: two with this
+    diff, one whose old and new configurations have the contents of two sibling blocks of one rule exchanged (same lines, other nesting)"""
+    import copy
+    from annet.annlib.patching import make_diff, strip_unchanged
+    from annet.diff import collapse_diffs
+    from vf.model import sut
+    hw = sut.hw_for(vendor)
+    devs = [sut.Dev(hw, "dev%d" % i) for i in range(3)]
+
+    def swapped(t):
+        blocks = {}
+        for row, ch in t.items():
+            cl = ctx.classify(row)
+            if cl is not None and RL.is_block(cl[0]):
+                blocks.setdefault(cl[0]["id"], []).append(row)
+        pair = next((rows[:2] for rows in blocks.values() if len(rows) >= 2), None)
+        if pair is None:
+            return None, None
+        out = copy.deepcopy(t)
+        out[pair[0]], out[pair[1]] = copy.deepcopy(t[pair[1]]), copy.deepcopy(t[pair[0]])
+        return out, pair
+    o2, pair = swapped(old)
+    n2 = None
+    if pair is not None and all(r in new for r in pair):
+        n2 = copy.deepcopy(new)
+        n2[pair[0]], n2[pair[1]] = copy.deepcopy(new[pair[1]]), copy.deepcopy(new[pair[0]])
+    diffs = {devs[0]: strip_unchanged(copy.deepcopy(d)), devs[1]: strip_unchanged(make_diff(old, new, rb, []))}
+    if n2 is not None:
+        diffs[devs[2]] = strip_unchanged(make_diff(o2, n2, rb, []))
+        labels.append("collapse-swapped-blocks")
+    fmt = sut.registry().match(hw).make_formatter()
+    own = {dev: list(fmt.diff(df)) for dev, df in diffs.items()}
+    groups = collapse_diffs(diffs)
+    members = [dev for g in groups for dev in g]
+    if sorted(x.hostname for x in members) != sorted(x.hostname for x in diffs):
+        raise Violation("collapse-groups", f"grouping the devices' diffs for review lists {[x.hostname for x in members]!r}, the devices are "
+                        f"{[x.hostname for x in diffs]!r}", det)
+    for g, shown in groups.items():
+        text = list(fmt.diff(shown))
+        for dev in g:
+            if own[dev] != text:
+                raise Violation("collapse-text", f"{dev.hostname} is listed under a diff shown as {text!r} but its own diff reads {own[dev]!r} "
+                                f"(group {[x.hostname for x in g]!r})"[:900], det)
+    if not any(devs[0] in g and devs[1] in g for g in groups):
+        raise Violation("collapse-groups", "two devices with equal diffs are not shown together", det)
+
+
 def check(case):
     from annet.annlib.diff import gen_pre_as_diff, resort_diff
     from annet.annlib.patching import make_diff, make_pre, strip_unchanged
@@ -255,6 +304,7 @@ def check(case):
         back = parse_signed(f.diff(sd), f._indent, f._block_begin, f._statement_end, f._block_end)
         if back != want:
             raise Violation("text-view", f"{v} formatter.diff read back differs from the diff: {back!r} vs {want!r}"[:700], det)
+    _collapse_check(case, d, old, new, rb, vendor, ctx, labels, det)
     lines = list(gen_pre_as_diff(make_pre(resort_diff(sd)), False, "  ", True))
     back = parse_pre_diff(lines, "  ")
     if multiset(back) != multiset(want):
